@@ -29,10 +29,11 @@ Definition set_gs (g : ghost) (l : list gstream) : ghost :=
   mkGh (gc_maxsend g) (gc_blocked g) (gc_adv g) (gc_initw g) (gc_maxw g) l.
 
 Definition gmod (g : ghost) (i : Z) (f : gstream -> gstream) : ghost :=
-  match nth_error (gs g) (Z.to_nat i) with
-  | Some x => set_gs g (upd (gs g) (Z.to_nat i) (f x))
-  | None => g
-  end.
+  if i <? 0 then g
+  else match nth_error (gs g) (Z.to_nat i) with
+       | Some x => set_gs g (upd (gs g) (Z.to_nat i) (f x))
+       | None => g
+       end.
 
 Definition gstep (g : ghost) (o : op) (r : ret) : ghost :=
   match o with
